@@ -124,8 +124,16 @@ func (r *Run) validNames() ([]string, []byte) {
 	var wire []byte
 	for k := r.Rng.Intn(4); k > 0; k-- {
 		var labs []string
+		total := 0
 		for j := 1 + r.Rng.Intn(4); j > 0; j-- {
 			n := r.Pick(1, 2, 5, 12, 63)
+			if total+n+1 > 254 { // RFC 1035 2.3.4: a name is at most 253 octets in dotted form
+				n = 253 - total
+				if n < 1 {
+					break
+				}
+			}
+			total += n + 1
 			b := r.Bytes(n)
 			for i := range b {
 				if b[i] == '.' {
@@ -246,7 +254,7 @@ func (r *Run) genOptCode(c uint16, depth int) gnode {
 		o.Options.Options = os
 		return gnode{append(append([]byte{}, iaid...), ow...), o, c}
 	case 5:
-		a := r.Bytes(16)
+		a := r.Addr16()
 		p, wp := dur()
 		v, wv := dur()
 		os, ow := sub(2)
@@ -306,7 +314,7 @@ func (r *Run) genOptCode(c uint16, depth int) gnode {
 		var ips []net.IP
 		var w []byte
 		for k := r.Rng.Intn(4); k > 0; k-- {
-			a := r.Bytes(16)
+			a := r.Addr16()
 			ips = append(ips, net.IP(a))
 			w = append(w, a...)
 		}
@@ -328,7 +336,7 @@ func (r *Run) genOptCode(c uint16, depth int) gnode {
 			w = append(append(w, 0), make([]byte, 16)...)
 		} else {
 			plen := 1 + r.Rng.Intn(128)
-			a := r.Bytes(16)
+			a := r.Addr16()
 			o.Prefix = &net.IPNet{IP: net.IP(a), Mask: net.CIDRMask(plen, 128)}
 			w = append(append(w, byte(plen)), a...)
 		}
@@ -349,12 +357,12 @@ func (r *Run) genOptCode(c uint16, depth int) gnode {
 		for k := r.Rng.Intn(4); k > 0; k-- {
 			switch r.Rng.Intn(4) {
 			case 0:
-				a := r.Bytes(16)
+				a := r.Addr16()
 				s := dhcpv6.NTPSuboptionSrvAddr(a)
 				subs = append(subs, &s)
 				w = append(w, tlvb(1, a)...)
 			case 1:
-				a := r.Bytes(16)
+				a := r.Addr16()
 				s := dhcpv6.NTPSuboptionMCAddr(a)
 				subs = append(subs, &s)
 				w = append(w, tlvb(2, a)...)
@@ -414,7 +422,7 @@ func (r *Run) genOptCode(c uint16, depth int) gnode {
 	case 98:
 		p4l, p6l, ea := r.Rng.Intn(33), r.Rng.Intn(129), byte(r.Rng.Intn(256))
 		wkp := r.Rng.Intn(2) == 0
-		p4, p6 := r.Bytes(4), r.Bytes(16)
+		p4, p6 := r.Bytes(4), r.Addr16()
 		fl := byte(0)
 		if wkp {
 			fl = 0x80
@@ -502,7 +510,7 @@ func (r *Run) genMsg(depth, maxOpts int) (dhcpv6.DHCPv6, []byte) {
 	if r.Rng.Intn(3) == 0 {
 		t := byte(12 + r.Rng.Intn(2))
 		hop := byte(r.Rng.Intn(256))
-		l, p := r.Bytes(16), r.Bytes(16)
+		l, p := r.Addr16(), r.Addr16()
 		m := &dhcpv6.RelayMessage{MessageType: dhcpv6.MessageType(t), HopCount: hop, LinkAddr: net.IP(l), PeerAddr: net.IP(p)}
 		m.Options.Options = os
 		w := append(append(append([]byte{t, hop}, l...), p...), ow...)
@@ -525,7 +533,7 @@ func (r *Run) genChain(depth int) (dhcpv6.DHCPv6, []byte) {
 	for i := 0; i < depth; i++ {
 		t := byte(12 + r.Rng.Intn(2))
 		hop := byte(i)
-		l, p := r.Bytes(16), r.Bytes(16)
+		l, p := r.Addr16(), r.Addr16()
 		rm := &dhcpv6.RelayMessage{MessageType: dhcpv6.MessageType(t), HopCount: hop, LinkAddr: net.IP(l), PeerAddr: net.IP(p)}
 		var ow []byte
 		if r.Rng.Intn(2) == 0 {
@@ -999,4 +1007,26 @@ func walkOpts(os dhcpv6.Options, f func(dhcpv6.Option)) {
 			}
 		}
 	}
+}
+
+// Addr16 draws a 16-octet address: mostly random, but often one of the forms net.IP treats specially
+// (IPv4-mapped, all-zero, loopback, IPv4-compatible, link-local, multicast).
+func (r *Run) Addr16() []byte {
+	a := r.Bytes(16)
+	switch r.Rng.Intn(12) {
+	case 0, 1:
+		copy(a, []byte{0, 0, 0, 0, 0, 0, 0, 0, 0, 0, 0xff, 0xff})
+	case 2:
+		a = make([]byte, 16)
+	case 3:
+		a = make([]byte, 16)
+		a[15] = 1
+	case 4:
+		copy(a, make([]byte, 12))
+	case 5:
+		copy(a, []byte{0xfe, 0x80, 0, 0, 0, 0, 0, 0})
+	case 6:
+		copy(a, []byte{0xff, 0x02})
+	}
+	return a
 }
